@@ -452,10 +452,14 @@ class HDF5DataFrame(DataFrame):
         # clashes, so perform two renames where necessary
         final_renames = dict()
         intermediate_columns = OrderedDict()
+        # names that an intermediate name must avoid: every current column name and every
+        # intermediate name already handed out (two of them must never coincide)
+        used_names = set(self._columns.keys())
 
         for k, f in self._columns.items():
             if k in dict_:
-                uname = get_unique_name(dict_[k], self._columns)
+                uname = get_unique_name(dict_[k], used_names)
+                used_names.add(uname)
                 if uname != k:
                     final_renames[uname] = dict_[k]
 
